@@ -309,18 +309,42 @@ func CheckClientError(err error, e ExpFrame) string {
 	if err == nil {
 		return fmt.Sprintf("the client reported success, want error %q", e.Error)
 	}
+	// the string the typed error must carry: decoded with a mirror struct (own type, same library), so that
+	// encoding/json's member matching rules (case-insensitive, last one wins) are the model's too
 	want := func(field string) (string, bool) {
-		var m map[string]json.RawMessage
-		if e.Params == nil || json.Unmarshal(e.Params, &m) != nil {
+		if e.Params == nil {
 			return "", true
 		}
-		var s string
-		if raw, ok := m[field]; ok {
-			if json.Unmarshal(raw, &s) != nil {
-				return "", false
+		var got string
+		var derr error
+		switch field {
+		case "interface":
+			var m struct {
+				V string `json:"interface"`
 			}
+			derr = json.Unmarshal(e.Params, &m)
+			got = m.V
+		case "method":
+			var m struct {
+				V string `json:"method"`
+			}
+			derr = json.Unmarshal(e.Params, &m)
+			got = m.V
+		default:
+			var m struct {
+				V string `json:"parameter"`
+			}
+			derr = json.Unmarshal(e.Params, &m)
+			got = m.V
 		}
-		return s, true
+		if derr != nil {
+			var probe map[string]json.RawMessage
+			if json.Unmarshal(e.Params, &probe) != nil {
+				return "", true // not an object at all: the typed error with an empty string, or the generic error (decided by the caller)
+			}
+			return "", false // an object whose member has the wrong type: only the generic error fits
+		}
+		return got, true
 	}
 	switch e.Error {
 	case "org.varlink.service.InterfaceNotFound":
